@@ -8,7 +8,7 @@ How a query or a `fit` charges the budget accountant (C09), composed with the ac
       … mechanism invocations …
       accountant.spend(epsilon, 0)
   multi-cell query (`_wrap_axis`, multi-quantile):
-      _check_cells(accountant, epsilon, cell_epsilon, n_cells)    -- check(epsilon, 0) + exact check of all cell spends
+      _check_cells(accountant, epsilon, cell_epsilon, n_cells)    -- validate epsilon + exact check of ALL cell spends
       then one complete scalar query (resolve / check / run / spend) per cell with `cell_epsilon`
   model `fit`:
       self.accountant = load_default(accountant)                  -- in __init__: the default in force AT CONSTRUCTION
@@ -71,10 +71,12 @@ def scalarQ (explicit : Option Nat) (ε : α) (b : Body ρ) : Query α ρ := fun
       | .error e => ⟨.error e, w.accs, b.calls⟩
       | .ok a' => ⟨.ok b.release, w.accs.set i a', b.calls⟩
 
-/-- `_check_cells` (after `load_default`): `check(epsilon, 0)`, then the exact total of the spends the cells will
-record must fit the ceiling (`total(spent_budget=…)` validates every entry, uses the accountant's own slack) -/
+/-- `_check_cells` (after `load_default`), as coded since 7bc0345: `check_epsilon_delta(epsilon, 0)` (validation only —
+epsilon is NOT checked as a single spend), then the exact total of the very spends the cells will record must fit
+the ceiling: `Budget(ceiling) >= total(spent_budget=spent + [(cell_epsilon, 0)] * n_cells)` (`total(spent_budget=…)`
+validates every entry and uses the accountant's own slack) -/
 def checkCells (a : Acc α) (ε cellε : α) (n : Nat) : Except Err Unit := do
-  a.check ε 0
+  checkEpsDelta ε 0
   let spent := a.spent ++ List.replicate n ⟨cellε, 0⟩
   spent.forM (fun sp => checkEpsDelta sp.eps sp.delta)
   let t := totalCore spent a.slack
